@@ -1,4 +1,5 @@
 import Casket.Proofs.Chain
+import Casket.Proofs.Cond
 import Casket.Generated.Directives
 /-
 C03 — Protected paths are never disclosed without valid credentials.
@@ -108,15 +109,15 @@ theorem C03_with_credentials_same_as_unprotected (fs : FS) (cs : ChainSite) (r :
 model's answer always passes the judge, for every file system without hard links and every
 configuration OUTSIDE the known failing classes:
 `IndexSafe` / `SiblingSafe` (no covered index page / precompressed sibling under an uncovered URL —
-excludes F4), `ArchiveSafe` or no archives at all (no covered file below an uncovered directory
-URL — excludes F3), `BackendSafe` (a covered proxy scope covers the paths it matches; backend
+excludes F4), `ArchiveSafe` (no covered file below an uncovered directory URL inside an
+archive-enabled browse scope — excludes F3), `BackendSafe` (a covered proxy scope covers the paths it matches; backend
 numbers are unique).  What is missing for the full property is exactly what the witness theorems
 below show to fail. -/
 theorem C03_no_disclosure_partial (fs : FS) (cs : ChainSite) (r : CReq)
     (hroot : NormalSegs cs.site.root) (hpre : NormalPrefix cs.site.pathPrefix) (hrd : RootIsDir fs cs.site)
     (hw : TargetsNonEmpty cs) (hl : NoHardLinks fs)
     (his : IndexSafe fs cs r.creds) (hss : SiblingSafe fs cs r.creds)
-    (has : ArchiveSafe fs cs r.creds ∨ NoArchives cs.site) (hbs : BackendSafe cs r.creds) :
+    (has : ArchiveSafe fs cs r.creds) (hbs : BackendSafe cs r.creds) :
     ChainSpec.verdict fs cs r (chainServe fs cs r) = "ok" :=
   chainServe_verdict_ok hroot hpre hrd hw hl his hss has hbs
 
@@ -125,7 +126,7 @@ theorem C03_model_verdict_ok_partial (fs : FS) (cs : ChainSite) (r : CReq)
     (hroot : NormalSegs cs.site.root) (hpre : NormalPrefix cs.site.pathPrefix) (hrd : RootIsDir fs cs.site)
     (hw : TargetsNonEmpty cs) (hl : NoHardLinks fs)
     (his : IndexSafe fs cs r.creds) (hss : SiblingSafe fs cs r.creds)
-    (has : ArchiveSafe fs cs r.creds ∨ NoArchives cs.site) (hbs : BackendSafe cs r.creds) :
+    (has : ArchiveSafe fs cs r.creds) (hbs : BackendSafe cs r.creds) :
     ChainSpec.verdict fs cs r (chainServe fs cs r) = "ok" :=
   chainServe_verdict_ok hroot hpre hrd hw hl his hss has hbs
 
@@ -138,16 +139,52 @@ theorem C03_dirscoped_index_sibling_safe (fs : FS) (cs : ChainSite) (creds : Opt
     IndexSafe fs cs creds ∧ SiblingSafe fs cs creds :=
   ⟨indexSafe_of_dirScoped hds hroot hpn, siblingSafe_of_dirScoped hds hroot hrd hpn⟩
 
-/-- No-disclosure with SYNTACTIC hypotheses only: directory scopes in normal form, plain index
-names and sibling extensions, no `servearchive`, no `proxy`.  For every such site, every file
-system without hard links, every request target, method, Accept-Encoding and credentials, the
-model's answer passes the judge: no content of a covered file without accepted credentials. -/
+/-- Metadata (HEAD, 304, 206, 416 answers): the headers of a file answer identify the served file
+(ETag, Content-Length, Content-Range — covered by the theorems above, it is the `.file` inode) and
+the resolved file (Last-Modified; `Cond.applyCond` mentions no other inode).  Under the hypotheses
+of the partial theorem the resolved file passes the judge as well: no size, entity tag or
+modification time of a covered file is disclosed without accepted credentials. -/
+theorem C03_metadata_partial (fs : FS) (cs : ChainSite) (r : CReq) (u : Url) (ino : Nat) (enc : Option Bytes)
+    (hroot : NormalSegs cs.site.root) (hpre : NormalPrefix cs.site.pathPrefix) (hrd : RootIsDir fs cs.site)
+    (hw : TargetsNonEmpty cs) (hl : NoHardLinks fs) (his : IndexSafe fs cs r.creds)
+    (hu : finalUrl fs cs r = some u) (h : chainServe fs cs r = .served (.file ino enc)) :
+    ChainSpec.verdict fs cs r (.served (.file (Casket.Cond.resolvedIno fs cs.site u) none)) = "ok" ∧
+    ∀ (c : Casket.Cond.Cond), ∀ i ∈ Casket.CondSpec.mentioned (Casket.Cond.applyCond c ino enc (Casket.Cond.resolvedIno fs cs.site u)),
+      i = ino ∨ i = Casket.Cond.resolvedIno fs cs.site u := by
+  refine ⟨chainServe_resolved_ok hroot hpre hrd hw hl his hu h, ?_⟩
+  intro c i hi
+  rcases Casket.CondProofs.applyCond_cases c ino enc (Casket.Cond.resolvedIno fs cs.site u) with h | h | ⟨a, b, h⟩ | h | h | h <;>
+    rw [h] at hi <;> simp [Casket.CondSpec.mentioned] at hi
+  · exact hi
+  · exact Or.inl hi
+  · exact hi
+  · exact hi
+  · exact Or.inl hi
+
+/-- Archives and proxies, syntactically: if no `servearchive` browse scope and no proxy `from`
+scope lies strictly above a protection scope (`ScopeClear`: every resource, exclusion or internal
+path lying under the scope contains the scope; scopes are written `/`, `/a/b` or `/a/b/`), then
+`ArchiveSafe` and `BackendSafe` hold — an archive never reaches down into a protected directory from
+outside, and a path handed to a backend is covered exactly when the proxy scope is. -/
+theorem C03_clear_scopes_safe (fs : FS) (cs : ChainSite) (creds : Option (Bytes × Bytes))
+    (hroot : NormalSegs cs.site.root) (hfs : NormalFS fs) (hds : DirScoped cs)
+    (hac : ArchiveScopesClear cs) (hpc : ProxyScopesClear cs) :
+    ArchiveSafe fs cs creds ∧ BackendSafe cs creds :=
+  ⟨archiveSafe_of_clear hds hroot hfs hac, backendSafe_of_clear hds hpc⟩
+
+/-- No-disclosure with SYNTACTIC hypotheses only: directory scopes in normal form (`DirScoped`),
+plain index names and sibling extensions (`PlainNames`), no `servearchive` scope and no proxy scope
+strictly above a protection scope (`ArchiveScopesClear`, `ProxyScopesClear`).  For every such site,
+every file system with ordinary names and without hard links, every request target, method,
+Accept-Encoding and credentials, the model's answer passes the judge: no content of a covered file
+or backend without accepted credentials.  (A site without archives or proxies meets the last two
+hypotheses trivially.) -/
 theorem C03_no_disclosure_dirscoped (fs : FS) (cs : ChainSite) (r : CReq)
     (hroot : NormalSegs cs.site.root) (hpre : NormalPrefix cs.site.pathPrefix) (hrd : RootIsDir fs cs.site)
-    (hw : TargetsNonEmpty cs) (hl : NoHardLinks fs)
-    (hds : DirScoped cs) (hpn : PlainNames cs.site) (hna : NoArchives cs.site) (hnp : cs.proxies = []) :
+    (hw : TargetsNonEmpty cs) (hl : NoHardLinks fs) (hfs : NormalFS fs)
+    (hds : DirScoped cs) (hpn : PlainNames cs.site) (hac : ArchiveScopesClear cs) (hpc : ProxyScopesClear cs) :
     ChainSpec.verdict fs cs r (chainServe fs cs r) = "ok" :=
-  chainServe_verdict_ok_dirScoped hroot hpre hrd hw hl hds hpn hna hnp
+  chainServe_verdict_ok_clear hroot hpre hrd hw hl hfs hds hpn hac hpc
 
 /-! ### Witnesses: the full property fails on the model exactly as on the real code -/
 
@@ -219,7 +256,7 @@ example : IndexSafe wFS wOpen none := by
 example : SiblingSafe wFS wOpen none := by
   intro q ne e0 e _ _ _ _ _ _ hc; simp [covered, needsAuth, isInternal, wOpen] at hc
 example : ArchiveSafe wFS wOpen none := by
-  intro p d e _ _ _ _ _ hc; simp [covered, needsAuth, isInternal, wOpen] at hc
+  intro p bc d e _ _ _ _ _ _ _ _ _ hc; simp [covered, needsAuth, isInternal, wOpen] at hc
 example : BackendSafe (wCS (b! "/area/locked")) none := by
   refine ⟨?_, ?_⟩
   · intro _ x hx; simp [wCS] at hx
@@ -253,8 +290,38 @@ example : PlainNames wDir.site := by
   refine ⟨?_, ?_⟩
   · intro ip hip; simp [wDir, wSite] at hip; subst hip; exact ⟨by decide, by decide, by decide, by decide⟩
   · intro ne hne; simp [wDir, wSite] at hne; subst hne; exact ⟨_, _, rfl, by decide, by decide⟩
-example : NoArchives wDir.site := by intro bc hbc; simp [wDir, wSite] at hbc; subst hbc; rfl
-example : wDir.proxies = [] := rfl
+example : ArchiveScopesClear wDir := by
+  intro bc hbc hne; simp [wDir, wSite] at hbc; subst hbc; exact absurd rfl hne
+example : ProxyScopesClear wDir := ⟨by intro x hx; simp [wDir] at hx, by intro x hx; simp [wDir] at hx⟩
+example : NormalFS wFS := by unfold NormalFS NormalSegs NormalSeg; decide
+
+/-- the same site with archives enabled for `/docs/` and `/area/free/` and a backend for `/api`:
+none of these scopes lies strictly above `/area/locked/` or `/docs/` -/
+def wDirArch : ChainSite := { wDir with
+  site := { wDir.site with browse := [{ scope := b! "/docs/", archives := [b! "tar"] }, { scope := b! "/area/free", archives := [b! "zip"] }] },
+  proxies := [(b! "/api", 9001)] }
+
+theorem plainScope_of (S : List Bytes) (hne : S ≠ []) (hn : NormalSegs S) (slashEnd : Bool) :
+    PlainScope (if slashEnd then slash :: joinSlash S ++ [slash] else slash :: joinSlash S) := by
+  cases slashEnd
+  · exact Or.inr ⟨S, hne, hn, Or.inl rfl⟩
+  · exact Or.inr ⟨S, hne, hn, Or.inr rfl⟩
+
+example : ArchiveScopesClear wDirArch ∧ ProxyScopesClear wDirArch := by
+  have n1 : NormalSegs [b! "docs"] := by unfold NormalSegs NormalSeg; decide
+  have n2 : NormalSegs [b! "area", b! "free"] := by unfold NormalSegs NormalSeg; decide
+  have n3 : NormalSegs [b! "api"] := by unfold NormalSegs NormalSeg; decide
+  have c1 : ScopeClear wDirArch (b! "/docs/") := ⟨plainScope_of [b! "docs"] (by simp) n1 true, by decide⟩
+  have c2 : ScopeClear wDirArch (b! "/area/free") := ⟨plainScope_of [b! "area", b! "free"] (by simp) n2 false, by decide⟩
+  have c3 : ScopeClear wDirArch (b! "/api") := ⟨plainScope_of [b! "api"] (by simp) n3 false, by decide⟩
+  refine ⟨?_, ?_, ?_⟩
+  · intro bc hbc _
+    simp [wDirArch, wDir, wSite] at hbc
+    rcases hbc with rfl | rfl
+    · exact c1
+    · exact c2
+  · intro x hx; simp [wDirArch] at hx; subst hx; exact c3
+  · intro x hx y hy _; simp [wDirArch] at hx hy; rw [hx, hy]
 example : chainServe wFS wDir (wReq (b! "/area/locked/l") []) = .unauthorized := by decide
 example : chainServe wFS wDir (wReq (b! "/docs/") []) = .served (.status 404) := by decide
 example : chainServe wFS wDir (wReq (b! "/area/") []) = .served (.listing [b! "free", b! "locked"]) := by decide
